@@ -881,7 +881,11 @@ impl Inner {
         trace!("accept: verified authorization");
 
         #[cfg(iroh_verif)]
-        iroh_dns::verif::pause_async("relay.accept.admitted").await;
+        iroh_dns::verif::pause_async(&format!(
+            "relay.accept.admitted:{}",
+            request.endpoint_id()
+        ))
+        .await;
 
         let io = RelayedStream {
             inner: io,
@@ -898,6 +902,14 @@ impl Inner {
         // connection
         self.clients
             .register(client_conn_builder, self.metrics.clone());
+        #[cfg(iroh_verif)]
+        iroh_dns::verif::event(
+            "relay.accept.registered",
+            &[
+                ("endpoint", request.endpoint_id().to_string()),
+                ("conn", request.connection_id().to_string()),
+            ],
+        );
         Ok(())
     }
 }
